@@ -24,6 +24,7 @@ mod p13;
 #[cfg(feature = "crypto")]
 mod p14;
 mod p15;
+mod p16;
 mod zlib;
 mod zmodel;
 mod p17;
@@ -133,6 +134,7 @@ fn main() {
         #[cfg(feature = "crypto")]
         "C14" => p14::run(&mut c),
         "C15" => p15::run(&mut c),
+        "C16" => p16::run(&mut c),
         "C17" => p17::run(&mut c),
         "C18" => p18::run(&mut c),
         "C19" => p19::run(&mut c),
